@@ -41,8 +41,9 @@ def make(cfg_in):
             s['threshold'] = c.int_var('thr', 1, k + 1)
         else:
             s['threshold'] = c.float_var('thr', 0.0, 1.0, lo_open=True)
-        lc = symdata.Cell(c, 'l', k, cfg['kmin'], cfg['missing'], False, cfg['nonempty'])
-        rc = symdata.Cell(c, 'r', k, cfg['kmin'], cfg['missing'], False, cfg['nonempty'])
+        kl, kr = cfg.get('kl', k), cfg.get('kr', k)
+        lc = symdata.Cell(c, 'l', kl, cfg.get('kminl', cfg['kmin']), cfg['missing'], False, cfg['nonempty'])
+        rc = symdata.Cell(c, 'r', kr, cfg.get('kminr', cfg['kmin']), cfg['missing'], False, cfg['nonempty'])
         s['l'], s['r'] = lc, rc
         w = scenario.SymWorld()
         tok = symdata.AbsTok(return_set=True)
@@ -62,11 +63,15 @@ def make(cfg_in):
                     stub.assert_mono([n, m])
             b.update(stub.bindings(h_core.KERNEL_USERS))
 
+        subclass = [None]
+
         def detail(prop, clause, msg):
             def mk(mdl):
                 d = {'prop': prop, 'clause': clause, 'msg': msg, 'harness': 'h_pair',
                      'kernel': cfg['kernel'],
                      'scenario': scenario.concretize_scenario(s, mdl)}
+                if subclass[0] and clause == 'safe':
+                    d['subclass'] = subclass[0]
                 if stub is not None:
                     d['kernel_values'] = {
                         'pl': dict((a, model_value(mdl, v)) for a, v in stub._pl.items()),
@@ -128,6 +133,8 @@ def make(cfg_in):
                     viols.append(('C04', 'safe', '%s.filter_pair drops a pair that satisfies the '
                                   'threshold: sizes (%d,%d) overlap %d score %r >= %r'
                                   % (flt, n, m, o, ref.raw_score(measure, n, m, o), s['threshold'])))
+                    if flt == 'SuffixFilter' and cfg['kernel'] == 'real':
+                        subclass[0] = _suffix_pair_subclass(lt, rt, measure, s['threshold'], tok)
                 if o == 0 and not dropped and flt in ('PrefixFilter', 'PositionFilter'):
                     viols.append(('C14', 'no-common-token', '%s keeps a pair without a common '
                                   'token (sizes %d,%d)' % (flt, n, m)))
@@ -151,3 +158,29 @@ def make(cfg_in):
         return {'nontrivial': nontriv, 'tags': tags, 'sample': sample}
 
     return h
+
+
+def _suffix_pair_subclass(lt, rt, measure, threshold, tok):
+    """Classify a SuffixFilter.filter_pair miss: under the pair-level order (frequency, then token)
+    is there a shared token in the prefix of one record and the suffix of the other?"""
+    fu = repo.mod('filter.filter_utils')
+    shared_l = [any(a == b for b in rt) for a in lt]
+    shared_r = [any(a == b for a in lt) for b in rt]
+    # pair-level order: non-shared tokens (frequency 1) first, shared ones (frequency 2) last;
+    # within a class by token, and the cells are presorted
+    def ordered(toks, flags):
+        return [t for t, f in zip(toks, flags) if not f] + [t for t, f in zip(toks, flags) if f], \
+               [False] * sum(1 for f in flags if not f) + [True] * sum(1 for f in flags if f)
+    lo, lf = ordered(lt, shared_l)
+    ro, rf = ordered(rt, shared_r)
+    pl_l = fu.get_prefix_length(len(lt), measure, threshold, tok)
+    pl_r = fu.get_prefix_length(len(rt), measure, threshold, tok)
+    # NB: the relative order of non-shared tokens of the two records does not matter for the
+    # classification: only shared tokens can be "the same token in both records"
+    for i, a in enumerate(lo):
+        if not lf[i]:
+            continue
+        for j, b in enumerate(ro):
+            if rf[j] and a == b and ((i < pl_l) != (j < pl_r)):
+                return 'shared-token-in-prefix-of-one-suffix-of-other'
+    return 'other'
